@@ -585,6 +585,23 @@ def run(ctx):
     for r in results[:1] + results[-1:]:
         ctx.sample(summarize(r))
 
+    # ---- in process: an operation that needs a connection which is not up yet (programs run without waiting for readiness) ----------------
+    import logging
+    import late_conn
+    import net_sync
+    logging.disable(logging.CRITICAL)
+    env_l = net_sync.setup()
+    late_bad = []
+    for variant in (0, 1, 2):
+        late_bad += ["variant %d: %s" % (variant, p_) for p_ in late_conn.run(env_l, variant)]
+        ctx.count("late_connection_programs")
+        ctx.case(("late-connection", variant), nontrivial=True)
+    logging.disable(logging.NOTSET)
+    ctx.obligation("a two-qubit gate whose register pull must inform a node that is not connected yet waits for the connection and leaves consistent bookkeeping "
+                   "(in process, 3 variants)", not late_bad, "; ".join(late_bad)[:600])
+    if late_bad:
+        ctx.report("C20:late-connection", late_bad[0], {"scenario": "harness/late_conn.py", "problems": late_bad}, found_input=True)
+
     ok, out = common.coq_eval(cases_text(cases))
     lists = common.parse_nat_lists(out) if ok else []
     failing = lists[0] if ok and len(lists) == 1 else None
